@@ -432,7 +432,30 @@ def rule_8(ctx):
                 n += 1
                 ctx.expect(val == want and not isinstance(val, bool), fn.node, f'{name}({s_}) [{day.isoformat()}]',
                            f'{name}({s_}) gives {got!r}; serial {s_} is {day.isoformat()}, a {day.strftime("%A")}, whose {name.lower()} is {want}')
-    ctx.floor(300, 'calendar rows')
+    # calls made one after the other in ONE process give what each gives in a process of its own
+    from xlsa.guards import World
+    seq = []
+    for s_ in (43845, 43861, 45351, 59, 61, 36526):
+        seq += [('DAY', (s_,)), ('MONTH', (s_,)), ('EOMONTH', (s_, 0)), ('DAY', (s_,)), ('EDATE', (s_, 1)), ('MONTH', (s_,)), ('YEAR', (s_,)), ('EOMONTH', (s_, 1)),
+                ('DAY', (s_,)), ('WEEKDAY', (s_,)), ('ISOWEEKNUM', (s_,)), ('EDATE', (s_, -1)), ('DAY', (s_,)), ('YEAR', (s_,))]
+    shared = World()
+
+    def outcome(name, args, world):
+        out = V.call(ctx, name, [V.num(a) for a in args], models=models, world=world)
+        got = V.norm(out.value) if out.end == 'return' else f'<{out.end} {V.norm(out.value)!r}>'
+        if isinstance(got, tuple) and len(got) == 2 and got[0] == 'DateTime' and isinstance(got[1], dt.datetime):
+            return ('serial', serial(got[1].date()))
+        return got
+    alone_cache = {}
+    for i, (name, args) in enumerate(seq):
+        if (name, args) not in alone_cache:
+            alone_cache[(name, args)] = outcome(name, args, None)
+        got = outcome(name, args, shared)
+        n += 1
+        ctx.expect(got == alone_cache[(name, args)], V.registered(ctx, name).node, f'call {i + 1} of a sequence in one process: {name}{args!r}',
+                   f'{name}{args!r} gives {got!r} as call {i + 1} of a sequence of date calls in one process ({", ".join(f"{n_}{a_!r}" for n_, a_ in seq[max(0, i - 4):i])} '
+                   f'before it) and {alone_cache[(name, args)]!r} on its own: what one call computed is no business of the next')
+    ctx.floor(380, 'calendar rows')
 
 
 RULES = [
